@@ -143,7 +143,12 @@ func genCase(rt *rapid.T) *Case {
 			loc = loc[i+1:]
 		}
 	}
-	return &Case{T: &t, V: &v, Locator: loc, ByValue: rapid.IntRange(0, 19).Draw(rt, "byValue") == 0}
+	c := &Case{T: &t, V: &v, Locator: loc, ByValue: rapid.IntRange(0, 19).Draw(rt, "byValue") == 0}
+	if rapid.IntRange(0, 7).Draw(rt, "withprev") == 0 {
+		pv := genV(rt, t)
+		c.Prev = &pv
+	}
+	return c
 }
 
 func one(c *Case) string {
@@ -191,6 +196,13 @@ func TestC11(t *testing.T) {
 		for _, loc := range ExoticLocators {
 			if f := one(&Case{Exotic: i + 1, Locator: loc}); f != "" {
 				t.Fatalf("exotic: %s", f)
+			}
+		}
+	}
+	for _, sc := range TwinScenarios {
+		for _, loc := range []string{"key", "keys", "other", "inner.key", "sub.key", "subs.key", "sub.keys", "subs.keys"} {
+			if f := one(&Case{Twin: sc, Locator: loc}); f != "" {
+				t.Fatalf("twin types: %s", f)
 			}
 		}
 	}
